@@ -299,6 +299,7 @@ func createVectorImageFunctions(cdata ImageMap) { //nolint:funlen // this is a g
 		Help:       "starts a new path and moves the pen to coords",
 		ArgTypes:   []object.Type{object.STRING, object.FLOAT, object.FLOAT},
 		ClientData: cdata,
+		DontCache:  true, // like the pixel functions: these change the named image, a memoized caller must still run them.
 		Callback: func(cdata any, _ string, args []object.Object) object.Object {
 			images := cdata.(ImageMap)
 			img, ok := images[args[0]]
